@@ -1,5 +1,6 @@
 """C12 — compiler-introduced names are reserved (`hy` / `_hy_…`) and fresh."""
 CANON = True
+STRICT = {"R-ID-RESERVED", "R-ID-FRESH", "R-TEMPLATE", "R-ANON-OWNER"}
 
 import ast
 import re
